@@ -200,6 +200,17 @@ func apply(fset *token.FileSet, f *ast.File, r Rule) (int, []string, error) {
 				return true
 			}
 			se, ok := ce.Fun.(*ast.SelectorExpr)
+			if ok && (se.Sel.Name == "Unlock" || se.Sel.Name == "RUnlock") {
+				if r.X != "" && exprString(fset, se.X) != r.X {
+					return true
+				}
+				if id, isID := se.X.(*ast.Ident); isID && id.Name == r.NewX {
+					return true // already rewritten
+				}
+				ce.Args = []ast.Expr{&ast.SelectorExpr{X: se.X, Sel: ast.NewIdent(se.Sel.Name)}}
+				ce.Fun = &ast.SelectorExpr{X: ast.NewIdent(r.NewX), Sel: ast.NewIdent("Unlock")}
+				return true
+			}
 			if !ok || (se.Sel.Name != "Lock" && se.Sel.Name != "RLock") {
 				return true
 			}
